@@ -193,6 +193,41 @@ pub fn items(tier: Tier, id: &str) -> Vec<Item> {
             out.push(Item { cfgs: c.to_vec(), f32_too: false });
         }
     }
+    if id == "C13" || id == "C11" || id == "C03" {
+        // three channels: the malformed (or masked) channel is the third one
+        let mut cfgs = Vec::new();
+        for kind in [Kind::SI, Kind::SO] {
+            cfgs.push(Cfg::sinc(kind, 0.8, 2.0, 8, 8, 2, Interp::Cubic, Kernel::Probe).with_channels(3));
+        }
+        for kind in [Kind::FI, Kind::FO] {
+            cfgs.push(Cfg::fast(kind, 0.8, 2.0, 8, Degree::Cubic).with_channels(3));
+        }
+        cfgs.push(Cfg::fft(Kind::XI, 3, 2, 10, 1).with_channels(3));
+        cfgs.push(Cfg::fft(Kind::XO, 2, 3, 10, 1).with_channels(3));
+        cfgs.push(Cfg::fft(Kind::XX, 2, 3, 8, 1).with_channels(3));
+        for c in cfgs.chunks(1) {
+            out.push(Item { cfgs: c.to_vec(), f32_too: false });
+        }
+    }
+    if id == "C09" || ((id == "C10" || id == "C13") && tier == Tier::Thorough) {
+        // a few large configurations: chunks of thousands of frames, eight channels, long filters,
+        // FFT blocks of thousands of points (sizes that small configurations never reach)
+        let mut cfgs = Vec::new();
+        for kind in [Kind::SI, Kind::SO] {
+            cfgs.push(Cfg::sinc(kind, R_147_160, 1.25, 4096, 256, 128, Interp::Cubic, Kernel::Dispatch).with_channels(2));
+            cfgs.push(Cfg::sinc(kind, 1.2, 2.0, 1000, 64, 256, Interp::Linear, Kernel::Dispatch).with_channels(8));
+        }
+        for kind in [Kind::FI, Kind::FO] {
+            cfgs.push(Cfg::fast(kind, R_147_160, 1.25, 4096, Degree::Septic).with_channels(8));
+        }
+        for kind in [Kind::XI, Kind::XO, Kind::XX] {
+            cfgs.push(Cfg::fft(kind, 44100, 48000, 4096, 1).with_channels(2));
+            cfgs.push(Cfg::fft(kind, 48000, 44100, 1024, if kind == Kind::XX { 1 } else { 2 }).with_channels(8));
+        }
+        for c in cfgs.chunks(1) {
+            out.push(Item { cfgs: c.to_vec(), f32_too: false });
+        }
+    }
     if id == "C17" || id == "C03" || id == "C04" {
         // large chunks: positions of several thousand frames times a large oversampling factor,
         // where arithmetic done in f32 instead of f64 loses the fractional position
@@ -288,6 +323,25 @@ pub fn items(tier: Tier, id: &str) -> Vec<Item> {
         for kind in [Kind::SI, Kind::SO] {
             for (l, os, interp) in [(1024usize, 160usize, Interp::Nearest), (1024, 100, Interp::Linear), (512, 160, Interp::Cubic), (256, 3, Interp::Quadratic)] {
                 let mut c = Cfg::sinc(kind, 48000.0 / 44100.0, 1.0, 1024, l, os, interp, Kernel::Dispatch);
+                c.channels = 1;
+                cfgs.push(c);
+            }
+        }
+        for c in cfgs.chunks(1) {
+            out.push(Item { cfgs: c.to_vec(), f32_too: false });
+        }
+        // windows other than the default with long tables and power-of-two oversampling
+        let mut cfgs = Vec::new();
+        for (w, l, os) in [
+            (rubato::WindowFunction::BlackmanHarris, 256usize, 256usize),
+            (rubato::WindowFunction::Hann2, 256, 1024),
+            (rubato::WindowFunction::Blackman2, 128, 2048),
+            (rubato::WindowFunction::Hann, 512, 128),
+            (rubato::WindowFunction::Blackman, 256, 512),
+        ] {
+            for kind in [Kind::SI, Kind::SO] {
+                let mut c = Cfg::sinc(kind, 48000.0 / 44100.0, 1.0, 1024, l, os, Interp::Cubic, Kernel::Dispatch);
+                c.window = w;
                 c.channels = 1;
                 cfgs.push(c);
             }
